@@ -252,6 +252,9 @@ def compare(src, pm_html):
             return "abstain", "lrd-looseness-differs-between-implementations"
     if "&" in src and _strip_urls(a) == _strip_urls(b):
         return "abstain", "entity-in-destination"
+    if not src.isascii() and _strip_urls(a) == _strip_urls(b):
+        # markdown-it converts non-ASCII host names to punycode (xn--...), the specification percent-encodes
+        return "abstain", "markdown-it-punycode-hosts"
     fd = first_div(a, b)
     path, x, y = fd
     sig = "/".join(path[-3:]) + "|" + _desc(x) + "|" + _desc(y)
